@@ -67,11 +67,22 @@ def macroStep (h : Pipe.Host) (tok : String) : Option Pipe.Host :=
   | ("burst", none) =>   -- several fill() calls at once (32 in the model): all pass the first check, then take the write lock one by one
       if h.cur.isNone then none else some (repeatStep (repeatStep h .fillCheck 32) .fillGo 32)
   | ("up", none) => h.step .up
+  -- N concurrent addHost callers (spin barrier / parked on the locks addHost takes): whatever the order in which they
+  -- get the mutex, the first registers (or finds) the pool and fills it, the others find it (Reg: C17_one_pool_per_host)
+  | ("ups", some n) => if n = 0 then none else (h.step .up).map fun h' => repeatStep h' .up (n - 1)
+  | ("upp", some n) => if n = 0 then none else (h.step .up).map fun h' => repeatStep h' .up (n - 1)
   | ("down", none) => if h.cur.isNone then none else h.step .down
   | ("pclose", none) => if h.cur.isNone then none else h.step .pclose
   | ("sclose", none) =>
       if h.sessClosed then none else
-      (h.step .sclose).map fun h' =>
+      ((h.step .sclose).bind (·.step .scancel)).map fun h' =>
+        autoStop (failAll h' ((h'.pools.flatMap (·.att)).map (·.id))) (fuel + 1)
+  -- Session.Close held between policyConnPool.Close() and s.cancel() …
+  | ("shold", none) => if h.sessClosed then none else h.step .sclose
+  -- … and let go: the session context is cancelled, every connect in flight fails
+  | ("sfin", none) =>
+      if !h.sessClosed || h.cancelled then none else
+      (h.step .scancel).map fun h' =>
         autoStop (failAll h' ((h'.pools.flatMap (·.att)).map (·.id))) (fuel + 1)
   | _ => none
 
@@ -144,10 +155,12 @@ def runDebMacro (st : WDeb × List Nat) : List String → List String
 /-- ops:
   pipe size=N ks=K auth=A rm=… : act act …
       a conducted schedule of the connect pipeline → the line of states `cur:open:closedconns;…` the model
-      predicts (initial state first); acts: okK failEK failRK errK pick burst up down pclose sclose
-  pipeobs kind=… size=N maxconns=M orphans=O closedconns=C afterclose=J leaked=L stack=… stalled=S sched=…
-      the monitors of one pipeline scenario → accept | reject:<clause>  (C17_pipe_pool_bound,
-      C17_pipe_no_conn_after_close, C17_pipe_session_close_leaves_nothing, C17_hs_reporters_terminate)
+      predicts (initial state first); acts: okK failEK failRK errK pick burst up upsN uppN down pclose sclose shold sfin
+  pipeobs kind=… size=N maxconns=M orphans=O closedconns=C [hostconns=H] afterclose=J leaked=L stack=… stalled=S [lateadd=A lateopen=K] sched=…
+      the monitors of one pipeline scenario → accept | reject:<clause>  (C17_pipe_pool_bound, C17_one_pool_per_host
+      [hostconns: open sockets of the host across ALL pool objects at a drained quiescent point], C17_pipe_no_conn_after_close,
+      C17_pipe_session_close_leaves_nothing_partial [afterclose / leaked do not count the pool an addHost registered inside
+      Session.Close — lateadd > 0 is the excluded class of that theorem, lateopen its connections], C17_hs_reporters_terminate)
   hsmodel <code|buf> act …   the setupConn result protocol → final state or `stuck`
   poolobs size=N maxconns=M maxopen=K final=F afterclose=J
       what a monitor goroutine saw on a real Session: the largest len(pool.conns), the largest number of
@@ -180,6 +193,7 @@ def step (_ : Unit) (ws : List String) : Unit × String :=
       match kv r "size", kv r "maxconns", kv r "orphans", kv r "closedconns", kv r "afterclose", kv r "leaked", kv r "stalled" with
       | some n, some m, some o, some c, some j, some l, some st =>
         if m > n then s!"reject:pool-holds-{m}-of-{n}"
+        else if (kv r "hostconns").getD 0 > n then s!"reject:host-holds-{(kv r "hostconns").getD 0}-of-{n}"
         else if c > 0 then s!"reject:closed-pool-holds-{c}"
         else if o > 0 then s!"reject:open-socket-outside-open-pool-{o}"
         else if j > 0 then s!"reject:open-after-close-{j}"
